@@ -173,6 +173,26 @@ EXTRA = [
     ("forin-skips-deleted-array", "var a = [1, 2, 3], out = []; for (var k in a) { a.pop(); out.push(k) } out.join()", "0,1"),
     ("forin-ignores-added", "var o = {a: 1, b: 2}, out = []; for (var k in o) { o.z = 1; out.push(k) } out.join()", "a,b"),
     ("forin-deleted-and-readded", "var o = {a: 1, b: 2}, out = []; for (var k in o) { if (k == 'a') { delete o.b; o.b = 5 } out.push(k) } out.join()", "a,b"),
+    # var declarations of program code are hoisted like those of a function body
+    ("global-var-in-dead-branch", "if (false) { var gq1 = 1 } String(gq1)", "undefined"),
+    ("global-var-used-before", "var gz = gzz; var gzz = 1; String(gz) + '|' + gzz", "undefined|1"),
+    ("global-var-forin-no-iteration", "for (var gk in {}) { } String(gk)", "undefined"),
+    ("global-var-forof-no-iteration", "for (var gv of []) { } String(gv)", "undefined"),
+    ("global-var-in-while", "while (false) { var gw = 1 } String(gw)", "undefined"),
+    ("global-var-in-catch", "try { } catch (e) { var gc = 1 } String(gc)", "undefined"),
+    ("global-var-in-switch", "switch (1) { case 2: var gs = 1 } String(gs)", "undefined"),
+    ("global-var-seen-by-function", "function gf(){ return typeof gg1 } var r1 = gf(); var gg1 = 1; r1 + '|' + gf()", "undefined|number"),
+    ("global-var-not-from-function-body", "function gf2(){ var inner1 = 1 } typeof inner1", "undefined"),
+    ("global-var-catch-param-not-hoisted", "try { throw 1 } catch (cp1) { } typeof cp1", "undefined"),
+    ("global-var-keeps-existing", "var keep1 = 5; var keep1; if (false) { var keep1 = 7 } keep1", 5),
+    ("global-var-in-eval", "eval('if (false) { var ev1 = 1 }'); String(ev1)", "undefined"),
+    # for-of wants something iterable
+    ("forof-number-throws", "var r; try { for (var x of 5) { } r = 'accepted' } catch (e) { r = e.name } r", "TypeError"),
+    ("forof-object-throws", "var r; try { for (var x of {a: 1}) { } r = 'accepted' } catch (e) { r = e.name } r", "TypeError"),
+    ("forof-undefined-throws", "var r; try { for (var x of undefined) { } r = 'accepted' } catch (e) { r = e.name } r", "TypeError"),
+    ("forof-null-throws", "var r; try { for (var x of null) { } r = 'accepted' } catch (e) { r = e.name } r", "TypeError"),
+    ("forof-string", "var out = []; for (var ch of 'abc') out.push(ch); out.join()", "a,b,c"),
+    ("forof-typed-array", "var t = 0; for (var x of new Uint8Array([1, 2, 3])) t += x; t", 6),
     # return: the value starts on the line of the keyword
     ("return-newline-value", "function f(){ return\n 5 } String(f())", "undefined"),
     ("return-same-line", "function f(){ return 5\n } f()", 5),
